@@ -98,7 +98,7 @@ func init() {
 				args := append([]string{}, rq.args...)
 				for ai, a := range args {
 					if a == "@DICT1" {
-						args[ai] = c.writeTemp("dict1.yml", "- name: UserSeven\n  meta: {display: \"7\"}\n  attributes: [Perfect1, Major3, Perfect5, Major6]\n- name: UserMinor\n  meta: {display: m}\n  extends: MajorTriad\n  attributes: [Minor7]\n- name: DominantSeventh\n  meta: {display: dom}\n  attributes: [Perfect1, Perfect4]\n")
+						args[ai] = c.writeTemp(fmt.Sprintf("dict1-%d.yml", nextID()), "- name: UserSeven\n  meta: {display: \"7\"}\n  attributes: [Perfect1, Major3, Perfect5, Major6]\n- name: UserMinor\n  meta: {display: m}\n  extends: MajorTriad\n  attributes: [Minor7]\n- name: DominantSeventh\n  meta: {display: dom}\n  attributes: [Perfect1, Perfect4]\n")
 					}
 				}
 				variant := []string{}
